@@ -681,3 +681,21 @@ func post_Frame_Limit(f *Frame, n int, old_f Frame) bool {
 	}
 	return len(*f) == keep && (keep == 0 || vs.OffsetOf(*f, old_f) == size-keep)
 }
+
+// ---------------------------------------------------------------------------------------------------------
+// Ssid constructors (C02, C03, C06, C07, C18: tenant isolation and presence addressing rest on them): the ssid of
+// a channel is the CONTRACT word followed by the channel's level hashes, in order; the presence ssid of an ssid is
+// the two system words followed by that ssid; for any number of levels (append with variadic copy: unbounded).
+//@ verify NewSsid pre=pre_NewSsid post=post_NewSsid props=C02,C03,C06,C07 qinst
+func pre_NewSsid(query []uint32) bool { return len(query) <= 1<<20 }
+func post_NewSsid(contract uint32, query []uint32, res0 Ssid) bool {
+	return len(res0) == len(query)+1 && res0[0] == contract &&
+		vs.Forall(0, len(query), func(i int) bool { return res0[1+i] == query[i] })
+}
+
+//@ verify NewSsidForPresence pre=pre_NewSsidForPresence post=post_NewSsidForPresence props=C18 qinst
+func pre_NewSsidForPresence(original Ssid) bool { return len(original) <= 1<<20 }
+func post_NewSsidForPresence(original Ssid, res0 Ssid) bool {
+	return len(res0) == len(original)+2 && res0[0] == system && res0[1] == presence &&
+		vs.Forall(0, len(original), func(i int) bool { return res0[2+i] == original[i] })
+}
